@@ -138,6 +138,8 @@ def run(ctx, rep):
     # ---- Y4-Y6: constant tables
     from . import c17_tables
     c17_tables.run(ctx, rep)
+    c17_tables.run_states(ctx, rep)
+    c17_tables.run_measurements(ctx, rep)
 
 
 def _check_eval(ctx, rep, fo: Folder, f: Func, ev: ast.Call, thorough: bool):
